@@ -119,6 +119,74 @@ def rows_alphabet(tier):
 
 
 # ---------------------------------------------------------------------------------------
+# (chains) two successive joins with a third table: the clauses of the first join (filter of
+# either side, ON / WHERE placement) meet the second join
+
+S_COLS = [["k", "int"], ["u", "int"]]
+CHAIN_TRIPLES = [
+    ([[1, 1], [2, 2], [3, 3]], [[1, 1], [2, 2], [4, 2]], [[1, 1], [3, 2], [5, 2], [None, 2]]),
+    ([[1, 2], [1, 1]], [[1, 2]], [[1, 2], [2, 1]]),
+    ([[2, 2]], [], [[2, 2]]),
+]
+
+
+def chain_worlds():
+    return [{"tables": {"L": {"cols": L_COLS, "rows": lr}, "R": {"cols": R_COLS, "rows": rr}, "S": {"cols": S_COLS, "rows": sr}}}
+            for lr, rr, sr in CHAIN_TRIPLES]
+
+
+def chain_first():
+    out = []
+    for rp in (None, {"hist": [["filter", [["gt", src("R", "w"), lit(1)]]]]}, {"alias": True},
+               {"hist": [["mutate", [["c", lit(5)]]]]}):
+        side = {"src": "R"}
+        if rp:
+            side.update(rp)
+        rk = ["col", "right", "k"] if rp and rp.get("alias") else src("R", "k")
+        for how in ("inner", "left", "full"):
+            out.append(["join", side, how, [["eq", src("L", "k"), rk]], {}])
+        out.append(["join", side, "cross", [], {}])
+    return out
+
+
+def chain_second(first):
+    out = []
+    r_alive = not first[1].get("alias")
+    for sp in (None, {"hist": [["filter", [["gt", src("S", "u"), lit(1)]]]]}):
+        side = {"src": "S"}
+        if sp:
+            side.update(sp)
+        ons = [[["eq", src("L", "k"), src("S", "k")]]]
+        if r_alive:
+            ons.append([["eq", src("R", "k"), src("S", "k")]])
+        for how in ("inner", "left", "full"):
+            for on in ons:
+                out.append(["join", side, how, on, {}])
+    return out
+
+
+def chains_alphabet(st, hist):
+    kinds = [e[0] for e in hist[1:]]
+    joins = [e for e in hist[1:] if e[0] == "join"]
+    if not kinds:
+        return [LPREP[0]] + chain_first()
+    if not joins:
+        return chain_first()
+    if len(joins) == 1:
+        return chain_second(joins[0])
+    return []
+
+
+def chain_probes(ex, hist, mstates):
+    if hist[-1][0] != "join":
+        return []
+    refs = [src("L", "k"), src("L", "v"), src("R", "k"), src("R", "w")]
+    if sum(1 for e in hist[1:] if e[0] == "join") == 2:
+        refs += [src("S", "k"), src("S", "u")]
+    return [["mutate", [["probe", r]]] for r in refs]
+
+
+# ---------------------------------------------------------------------------------------
 # (names)
 
 L_SCHEMAS = [
@@ -187,6 +255,9 @@ def make_explorer(world, part="rows", tier="quick"):
     if part == "rows":
         return X.Explorer(world, alphabet=rows_alphabet(tier), checks=[], depth=3, oracle="model", names="list",
                           probes=probes)
+    if part == "chains":
+        return X.Explorer(world, alphabet=chains_alphabet, checks=[], depth=3, oracle="model", names="list",
+                          probes=chain_probes)
     return X.Explorer(world, alphabet=names_alphabet, checks=[], depth=3, oracle="model", names="list",
                       probes=name_probes)
 
@@ -197,6 +268,8 @@ def tasks(tier):
     step = 4 if tier == "quick" else 2
     for i in range(0, nw, step):
         out.append({"part": "rows", "worlds": list(range(i, min(nw, i + step)))})
+    for i in range(len(chain_worlds())):
+        out.append({"part": "chains", "worlds": [i]})
     nn = len(name_worlds())
     for hs in HASHSEEDS if tier == "thorough" else HASHSEEDS[:2]:
         for i in range(0, nn, 3):
@@ -207,7 +280,7 @@ def tasks(tier):
 def run_task(task, tier):
     from collections import Counter
 
-    ws = row_worlds(tier) if task["part"] == "rows" else name_worlds()
+    ws = row_worlds(tier) if task["part"] == "rows" else chain_worlds() if task["part"] == "chains" else name_worlds()
     total = {"stats": Counter(), "outcomes": Counter(), "levels": Counter(), "violations": [], "samples": []}
     for wi in task["worlds"]:
         res = base.run_history_task(lambda ww: make_explorer(ww, task["part"], tier), ws[wi], [["source", "L"]], None,
@@ -230,6 +303,9 @@ def recheck(rec):
 
 def describe(tier):
     return {
+        "chains": {"worlds": len(chain_worlds()), "first_join": "R plain / filtered / aliased / with a constant column; inner, left, full, cross",
+                   "second_join": "S plain / filtered; inner, left, full; on L.k == S.k or R.k == S.k", "prefix": "optional filter on L",
+                   "probes": "every source column of L, R and S through its original reference"},
         "rows": {
             "left_preparations": [T.py_event(e) for e in LPREP],
             "right_preparations": ["-", "filter(R.w > 1)", "mutate(w=R.w+1)", "select(R.k)", "rename(w -> v)", "alias()"],
